@@ -3,7 +3,7 @@ CONSTANTS
   MaxOps = 3
   Groups = {"list", "listns", "tree", "arr", "mat", "ds", "memo", "seed"}
   Big = FALSE
-  Focus = "D"
+  Focus = "M"
   Wide = TRUE
   ShipDsAdd = FALSE
   ShipMatPartial = FALSE
